@@ -15,6 +15,7 @@
 //	dial <k> <hold 0|1>         what the proxy does: u.Dial(); on ErrGone RemoveConn(u)
 //	expire <k>                  wait until the token expiry of k has passed
 //	server-shutdown             Server.Shutdown
+//	server-shutdown-stuck       Server.Shutdown whose grace period expires (a client stuck in its request header)
 //
 // output: ok eps=<Endpoints()> local=<cluster local endpoints> gossip=<live endpoint entries>
 // sess=<open sessions> log=<exit log lines since the previous op>
@@ -607,10 +608,22 @@ func (e *sessEngine) Step(ws []string, o *Out) string {
 		st := e.quiesce(cond)
 		e.oracle(o)
 		return e.line(st)
-	case "server-shutdown":
+	case "server-shutdown", "server-shutdown-stuck":
 		al := e.aliveCls()
 		cond := e.endOf(al...)
-		ctx, cancel := context.WithTimeout(context.Background(), 2*time.Second)
+		grace := 2 * time.Second
+		if ws[0] == "server-shutdown-stuck" && e.ln != nil {
+			// a client stuck half-way through its request header keeps http.Server.Shutdown
+			// waiting until the grace period expires: the upstream connections must be ended anyway
+			if sc, err := net.DialTimeout("tcp", e.ln.Addr().String(), time.Second); err == nil {
+				defer sc.Close()
+				_, _ = sc.Write([]byte("GET /piko/v1/upstream/stuck HTTP/1.1\r\nHost: stuck\r\nX-Partial: "))
+				time.Sleep(20 * time.Millisecond)
+				grace = 300 * time.Millisecond
+				o.Count("server-shutdown:grace-expired")
+			}
+		}
+		ctx, cancel := context.WithTimeout(context.Background(), grace)
 		_ = e.srv.Shutdown(ctx)
 		cancel()
 		e.shut = true
@@ -811,7 +824,7 @@ func (e *sessEngine) Gen(r *rand.Rand, n int, tier string, w *bufio.Writer) {
 					c.open = false
 				}
 			case x < 94 && !shut:
-				fmt.Fprintln(w, "server-shutdown")
+				fmt.Fprintln(w, Pick(r, []string{"server-shutdown", "server-shutdown-stuck"}))
 				shut = true
 				for _, c := range cs {
 					c.open = false
@@ -836,7 +849,7 @@ func (e *sessEngine) Gen(r *rand.Rand, n int, tier string, w *bufio.Writer) {
 			fmt.Fprintln(w, "shed")
 		default:
 			if !shut {
-				fmt.Fprintln(w, "server-shutdown")
+				fmt.Fprintln(w, Pick(r, []string{"server-shutdown", "server-shutdown", "server-shutdown-stuck"}))
 			} else {
 				fmt.Fprintln(w, "shed")
 			}
